@@ -730,6 +730,9 @@ class Exec:
             return [(st, Builtin("tuple." + name, v))]
         if isinstance(v, T):
             h = v.hint or self.hint_of(v, st)
+            if name == "__class__" and (h in (None, "Schema", "GenericSchema", "Props")):
+                # class of a symbolic object whose exact class is not fixed by the contract
+                return [(st, T(M.ClsV(M.type_id(self.ct, v.z)), "type"))]
             if name == "__class__" and h:
                 return [(st, Cls(h))]
             if name == "format" and h in (None, "ValidationError"):
@@ -747,7 +750,7 @@ class Exec:
                     return [(st, T(M.attr("version")(v.z), None))]
             if h is None:
                 h2 = self.refine_hint(v, st, ("UUID", "str", "list", "dict", "AnySchema", "DictSchema",
-                                              "ListSchema", "optional", "ValidationResult", "Schema"))
+                                              "ListSchema", "optional", "ValidationResult", "Props", "Schema"))
                 if h2 is not None:
                     return self.getattr_(T(v.z, h2), name, st, node)
             raise Unsupported(f"attribute .{name} on {v!r}")
@@ -758,6 +761,12 @@ class Exec:
     def class_attr(self, recv: Any, cname: str, name: str, st: State) -> List[Tuple[State, Any]]:
         look = "CustomSchema" if cname == "UserCustomSchema" else cname
         fi = self.repo.lookup_method(look, name)
+        if name in self.repo.overrides and self.repo.is_subclass(look, "Schema"):
+            # Schema.__override__(name, fn) executed at import: the module-level function is the method
+            omod, oname = self.repo.overrides[name]
+            k_, p_ = self.repo.resolve_name(omod, oname)
+            if k_ == "func":
+                fi = p_
         if fi is not None:
             if fi.is_property:
                 return self.call_fn(Fn(fi, recv, look), [], {}, None, st)
@@ -791,7 +800,7 @@ class Exec:
 
     def attr_hint(self, cname: str, name: str) -> Optional[str]:
         if name == "_props":
-            return self.repo.props_class_of(cname)
+            return self.repo.props_class_of(cname) or "Props"
         if name == "_registry":
             return "dict"
         if name == "_errors":
@@ -924,6 +933,10 @@ class Exec:
                 outs = nxt
             return [(s, z3.And(*acc) if acc else z3.BoolVal(True)) for s, acc in outs]
         za, zb = self.term(a, st), self.term(b, st)
+        if getattr(self, "generic_eq", False):
+            # inside Props.__eq__ & co.: operands may be schemas / containers of schemas, so `==` is the
+            # relation gen_eq whose definition (contracts/equality.py) honours Schema.__eq__ = eq
+            return [(st, M.gen_eq(za, zb))]
         self.used_assumptions.add(
             "== between two heap objects is a total, non-raising relation (ref_eq); objects whose "
             "__eq__ raises are outside the domain")
